@@ -117,5 +117,9 @@ def run(ctx, rep) -> None:
     rep.attempt("stateful_cursors_advance", stateful_cursors_advance, ctx, rep, "C08.3")
     rep.attempt("_dist_remask", _dist_remask, ctx, rep, "C08.3", FULLY, 2)
     rep.attempt("sibling_pairs", sibling_pairs, ctx, rep, "C08.3", [p for p in dist_pairs() if HYB in p[:2]])
+    from .c14 import buffer_layout_semantics, split_semantics
+
+    rep.attempt("split_semantics", split_semantics, ctx, rep, "C08.3", [HYB])
+    rep.attempt("buffer_layout_semantics", buffer_layout_semantics, ctx, rep, "C08.3", [HYB])
     rep.attempt("sibling_pairs", sibling_pairs, ctx, rep, "C08.4", [(FULLY, HYB, "_get_params_or_grads"), (FULLY, HYB, "_construct_composable_block_ids")])
     rep.assume("numerical equality with the serial optimizer is NOT decided")
